@@ -12,12 +12,18 @@
 --   ResOK op a b : a = b, or op is a check_eor and a = ok, b = eof
 --   AllOK ops as bs : as, bs have the length of ops and are related by ResOK position by position
 --   Mem          : the in-memory reader written on the list of remaining bytes (Winter/Model/Reader.lean)
+--   visible l    : the bytes of l before its first empty chunk;  absV s = buf[pos..] ++ rbuf ++ visible s.src
+--   Live s       : pos ≤ |buf| ∧ no read has returned Ok(0) yet ∧ guaranteed_eof unset (nothing about the source)
+--   endReported op r : r = eof, or op = has_more_bytes and r = false
+--   AgreeUntilEnd ops as bs : as, bs related by ResOK position by position up to and including the first
+--                  position where `as` reports the end
 -- All theorems are for every chunking, every answer sequence of `has_remaining_capacity`, every operation
 -- and every history, with no bound on sizes.
 import Winter.Model.Reader
 import WinterProofs.Lemmas.C13
 import WinterProofs.Lemmas.C13Slice
 import WinterProofs.Lemmas.C13NoPanic
+import WinterProofs.Lemmas.C13Live
 
 namespace WinterProofs.C13
 open Model.Reader
@@ -144,6 +150,42 @@ theorem fused_is_necessary :
         = [.ok (.nat 1), .ok (.nat 2), .eof] := by decide
     rw [e1, e2] at this
     simp [AllOK, ResOK] at this
+
+-- ---------------------------------------------------------------------------------------------------
+-- arbitrary sources, including ones that answer `Ok(0)` before their real end ("empty reads before EOF")
+
+/-- ★ one call in any state in which no `Ok(0)` has been seen yet, over ANY source: the result is the
+    in-memory reader's on the bytes held plus the bytes the source delivers before its first `Ok(0)`
+    (`absV`), and unless the call reports the end of the stream the new state is again such a state and
+    holds exactly what the in-memory reader has left -/
+theorem adapter_step_any_source (op : Op) (s : St) (hs : Live s) :
+    ResOK op (step St.reader op s).1 (step Mem op (absV s)).1 ∧
+      (¬ endReported op (step St.reader op s).1 →
+        absV (step St.reader op s).2 = (step Mem op (absV s)).2 ∧ Live (step St.reader op s).2) :=
+  stepV op s hs
+
+/-- ★★ No hypothesis on the source at all: for every list of read results (empty reads anywhere), every
+    allocator behaviour and every history, a fresh adapter returns what `SliceReader` returns on the bytes
+    delivered before the first `Ok(0)`, for every call up to and including the first one that reports the
+    end of the stream (`UnexpectedEOF` or `has_more_bytes() = false`). What happens after that point on a
+    source that then delivers more bytes is outside the property (`fused_is_necessary`). -/
+theorem adapter_equiv_slice_until_end (chunks : List (List Nat)) (orc : List Bool) (ops : List Op) :
+    AgreeUntilEnd ops (run St.reader ops (St.new chunks orc)).1
+      (run Slice.reader ops (Slice.new (visible chunks))).1 := by
+  have h := runV ops (St.new chunks orc) (live_new chunks orc)
+  rw [absV_new] at h
+  have hs := (slice_run_exact ops (Slice.new (visible chunks)) (Nat.zero_le _)).1
+  have hr : (Slice.new (visible chunks)).rest = visible chunks := rfl
+  rw [hr] at hs
+  rw [hs]
+  exact h
+
+/-- for a contract-abiding source the visible bytes are the whole stream -/
+theorem visible_eq_stream (chunks : List (List Nat)) (h : Fused chunks) : visible chunks = chunks.flatten :=
+  visible_of_fused chunks h
+
+example : visible [[1, 2], [3], [], [4]] = [1, 2, 3] := by decide
+example : Live (St.new [[1], [], [2]] [true]) := live_new _ _
 
 -- ---------------------------------------------------------------------------------------------------
 -- each byte exactly once
